@@ -55,6 +55,9 @@ pub struct Cycle {
 
 #[derive(Clone, Debug, Serialize, Deserialize, Hash)]
 pub struct Sc {
+    /// real leg only: the directory that should hold the golden file does not exist
+    #[serde(default)]
+    pub parent_missing: bool,
     pub initial: Option<Vec<u8>>,
     pub cycles: Vec<Cycle>,
     pub matrix_cell: u64,
@@ -69,6 +72,7 @@ struct GWorld {
     write_fault: RefCell<WriteFault>,
     writes: RefCell<u64>,
     reads: RefCell<u64>,
+    vars: RefCell<u64>,
     faults_fired: RefCell<BTreeMap<&'static str, u64>>,
     path: PathBuf,
 }
@@ -132,6 +136,7 @@ impl okane_golden::verif::World for GWorld {
         if key != "UPDATE_GOLDEN" {
             return Err(std::env::VarError::NotPresent);
         }
+        *self.vars.borrow_mut() += 1;
         match &*self.env.borrow() {
             Some(v) => Ok(v.clone()),
             None => Err(std::env::VarError::NotPresent),
@@ -154,13 +159,21 @@ const CONTENTS: &[&str] = &[
     "tab\there\n",
     "trailing space \n",
     "2024/01/01 * Payee\n    Assets:Bank    1,000 JPY\n    Income\n",
+    "\u{feff}a\n",
+    "\u{feff}",
+    " a\n",
+    "a\n\n",
+    "a\u{3000}\n",
+    "\u{a0}a",
+    "a\n\u{0}",
+    "A\n",
 ];
 
 fn content(rng: &mut Rng) -> String {
     if rng.chance(3, 4) {
         CONTENTS[rng.usize(CONTENTS.len())].to_string()
     } else {
-        let pool = ['a', 'b', '\n', '\r', ' ', 'é', '日', '\t'];
+        let pool = ['a', 'b', '\n', '\r', ' ', 'é', '日', '\t', '\u{feff}', 'A', '\u{3000}'];
         (0..rng.usize(12)).map(|_| pool[rng.usize(pool.len())]).collect()
     }
 }
@@ -168,12 +181,16 @@ fn content(rng: &mut Rng) -> String {
 /// A `got` related to `file` in one of the ways the statement distinguishes.
 fn got_for(rng: &mut Rng, file: &str) -> String {
     let norm = file.replace("\r\n", "\n");
-    match rng.below(10) {
+    match rng.below(14) {
         0..=3 => norm,
         4 => file.to_string(),
         5 => format!("{}\n", norm),
         6 => norm.trim_end_matches('\n').to_string(),
         7 => norm.replace('\n', "\r\n"),
+        10 => norm.trim_start_matches('\u{feff}').to_string(),
+        11 => norm.trim().to_string(),
+        12 => norm.to_lowercase(),
+        13 => format!("\u{feff}{}", norm),
         8 => {
             let mut cs: Vec<char> = norm.chars().collect();
             if cs.is_empty() {
@@ -205,8 +222,8 @@ impl Check for C20 {
 
     fn runs(&self, tier: Tier) -> u64 {
         match tier {
-            Tier::Quick => MATRIX * 1500,
-            Tier::Thorough => MATRIX * 20_000,
+            Tier::Quick => MATRIX * 600,
+            Tier::Thorough => MATRIX * 8_000,
         }
     }
 
@@ -286,6 +303,7 @@ impl Check for C20 {
             });
         }
         Sc {
+            parent_missing: initial.is_none() && rng.chance(1, 3),
             initial,
             cycles,
             matrix_cell: cell,
@@ -293,6 +311,105 @@ impl Check for C20 {
     }
 
     fn execute(&self, sc: &Sc, out: &mut RunOut) {
+        let v0 = out.violations.len();
+        let consistent = sim_leg(sc, out);
+        if !consistent {
+            // Golden did not go through the seam (a refactoring to other std APIs): what the
+            // simulated world saw says nothing; the real-file-system leg below decides alone.
+            out.violations.truncate(v0);
+            out.count("seam.bypass-suspected: simulated leg discarded");
+        }
+        real_leg(sc, out);
+        out.nontrivial = true;
+    }
+
+    fn shrinks(&self, sc: &Sc) -> Vec<Sc> {
+        let mut out = Vec::new();
+        for i in 0..sc.cycles.len() {
+            if sc.cycles.len() > 1 {
+                let mut s = sc.clone();
+                s.cycles.remove(i);
+                out.push(s);
+            }
+        }
+        for i in 0..sc.cycles.len() {
+            let c = &sc.cycles[i];
+            if c.edit != Edit::None {
+                let mut s = sc.clone();
+                s.cycles[i].edit = Edit::None;
+                out.push(s);
+            }
+            if c.read_fault != ReadFault::None {
+                let mut s = sc.clone();
+                s.cycles[i].read_fault = ReadFault::None;
+                out.push(s);
+            }
+            if c.write_fault != WriteFault::None {
+                let mut s = sc.clone();
+                s.cycles[i].write_fault = WriteFault::None;
+                out.push(s);
+            }
+            if c.env_at_new != c.env_at_assert {
+                let mut s = sc.clone();
+                s.cycles[i].env_at_assert = c.env_at_new.clone();
+                out.push(s);
+            }
+            if c.got.chars().count() > 1 {
+                let n = c.got.chars().count();
+                let mut s = sc.clone();
+                s.cycles[i].got = c.got.chars().take(n / 2).collect();
+                out.push(s);
+                let mut s = sc.clone();
+                s.cycles[i].got = c.got.chars().skip(n / 2).collect();
+                out.push(s);
+            }
+        }
+        if sc.parent_missing {
+            let mut s = sc.clone();
+            s.parent_missing = false;
+            out.push(s);
+        }
+        if let Some(b) = &sc.initial {
+            if b.len() > 1 {
+                let mut s = sc.clone();
+                s.initial = Some(b[..b.len() / 2].to_vec());
+                out.push(s);
+            }
+        }
+        out
+    }
+
+    fn sample(&self, sc: &Sc) -> serde_json::Value {
+        serde_json::json!({
+            "matrix_cell": sc.matrix_cell,
+            "real_leg_parent_directory_missing": sc.parent_missing,
+            "initial_file": sc.initial.as_ref().map(|b| String::from_utf8_lossy(b).to_string()),
+            "cycles": sc.cycles.iter().map(|c| serde_json::json!({
+                "UPDATE_GOLDEN_at_new": c.env_at_new,
+                "UPDATE_GOLDEN_at_assert": c.env_at_assert,
+                "read_fault": format!("{:?}", c.read_fault),
+                "write_fault": format!("{:?}", c.write_fault),
+                "edit": match &c.edit { Edit::None => "none".to_string(), Edit::Remove => "remove".to_string(), Edit::Replace(b) => format!("replace with {:?}", String::from_utf8_lossy(b)) },
+                "got": c.got,
+            })).collect::<Vec<_>>(),
+        })
+    }
+
+    fn rule(&self) -> &'static str {
+        "run index mod 192 selects one cell of the matrix UPDATE_GOLDEN in {unset, '', '1', '0'} x file {absent, present} x fault {none, read error (EIO / permission), write refused at open, write torn after k bytes} x environment flipped between new and assert {no, yes} x third-party {nothing, edit, remove} for the first new/assert cycle (every cell is visited equally often; coverage.schedules.distinct_matrix_cells must be 192); contents and `got` are seeded (empty, CRLF vs LF, lone CR, trailing newline, non-ASCII, invalid UTF-8, one character changed, unrelated); 0-2 further drawn cycles reuse the durable file written by earlier ones; the model is the statement: assert returns iff got == content.replace(CRLF, LF); zero write calls and an unchanged file whenever UPDATE_GOLDEN is unset or empty at the call; new on an absent file is an error unless updating; after a successful update the file holds exactly got; a failed update must panic; every run is non-trivial; distinct = structural hash of the tape"
+    }
+
+    fn assumptions(&self) -> Vec<&'static str> {
+        vec![
+            "DONT_CARE: what assert compares against when the file was edited, or UPDATE_GOLDEN switched between update and no-update, after new (the no-write half is still enforced)",
+            "the seam replaces std::fs::read_to_string, std::fs::write and std::env::var inside golden/src/lib.rs only; CRLF normalisation, NotFound handling, is_update_golden and write-then-compare run for real",
+        ]
+    }
+}
+
+fn sim_leg(sc: &Sc, out: &mut RunOut) -> bool {
+    {
+        let mut consistent = true;
         let path = PathBuf::from("/g/testdata/golden.txt");
         let w = Rc::new(GWorld {
             file: RefCell::new(sc.initial.clone()),
@@ -301,6 +418,7 @@ impl Check for C20 {
             write_fault: RefCell::new(WriteFault::None),
             writes: RefCell::new(0),
             reads: RefCell::new(0),
+            vars: RefCell::new(0),
             faults_fired: RefCell::new(BTreeMap::new()),
             path: path.clone(),
         });
@@ -332,6 +450,7 @@ impl Check for C20 {
             *w.write_fault.borrow_mut() = WriteFault::None;
             let file_at_new: Option<Vec<u8>> = w.file.borrow().clone();
             let writes0 = *w.writes.borrow();
+            let reads0 = *w.reads.borrow();
             let made = catch_unwind(AssertUnwindSafe(|| okane_golden::Golden::new(path.clone())));
             let made = match made {
                 Ok(r) => r,
@@ -340,13 +459,23 @@ impl Check for C20 {
                     break;
                 }
             };
-            if *w.writes.borrow() != writes0 {
+            if *w.reads.borrow() == reads0 {
+                consistent = false; // the file was not read through the seam
+            }
+            if *w.writes.borrow() != writes0 && !update_on(&c.env_at_new) {
                 out.violate("C20/wrote-without-update", format!("during new; {}", sig), "Golden::new wrote to the file system".to_string());
             }
             // model of `new`
             let text_at_new: Option<Result<String, ()>> = file_at_new.as_ref().map(|b| String::from_utf8(b.clone()).map_err(|_| ()));
-            let want_new_ok: Option<bool> = if c.read_fault != ReadFault::None {
-                Some(false)
+            let want_new_ok: Option<bool> = if c.read_fault != ReadFault::None || matches!(text_at_new, Some(Err(()))) {
+                // an unreadable golden file: an error, except that while updating the statement
+                // only asks for the file to hold `got` afterwards (DONT_CARE)
+                if update_on(&c.env_at_new) {
+                    out.count("dc.unreadable golden file while updating");
+                    None
+                } else {
+                    Some(false)
+                }
             } else {
                 match &text_at_new {
                     None => Some(update_on(&c.env_at_new)),
@@ -397,8 +526,14 @@ impl Check for C20 {
             // ---- assert ----
             let file_before: Option<Vec<u8>> = w.file.borrow().clone();
             let writes1 = *w.writes.borrow();
+            let vars1 = *w.vars.borrow();
             let passed = catch_unwind(AssertUnwindSafe(|| golden.assert(&got))).is_ok();
             let wrote = *w.writes.borrow() - writes1;
+            if *w.vars.borrow() == vars1 || (update_on(&c.env_at_assert) && wrote == 0) {
+                // the environment was not read, or the update did not go, through the seam:
+                // either a different std API is in use or the update was skipped; the real leg tells
+                consistent = false;
+            }
             let file_after: Option<Vec<u8>> = w.file.borrow().clone();
             out.mix(crate::prng::fnv(format!("{}{}{:?}", passed, wrote, file_after).as_bytes()));
             if !update_on(&c.env_at_assert) {
@@ -453,83 +588,285 @@ impl Check for C20 {
         }
         out.add("golden.reads", *w.reads.borrow());
         out.add("golden.writes", *w.writes.borrow());
-        out.nontrivial = true;
+        consistent
     }
+}
 
-    fn shrinks(&self, sc: &Sc) -> Vec<Sc> {
-        let mut out = Vec::new();
-        for i in 0..sc.cycles.len() {
-            if sc.cycles.len() > 1 {
-                let mut s = sc.clone();
-                s.cycles.remove(i);
-                out.push(s);
+// ---------------------------------------------------------------------------------------
+// The same scenario against the real file system and the real environment of this worker
+// process (no world installed: the seam falls through to std). It sees whatever std API
+// Golden uses, so it also decides when the simulated leg cannot (seam bypassed), and it
+// observes the whole directory tree: stray files, created directories, rewritten bytes.
+// Faults here are the ones a real directory can produce for root: the path is a symlink
+// loop or a directory when read, a directory when written.
+// ---------------------------------------------------------------------------------------
+
+#[derive(Clone, Debug, PartialEq, Eq)]
+enum Node {
+    Dir,
+    File(Vec<u8>, Option<std::time::SystemTime>),
+    Link(PathBuf),
+}
+
+fn snapshot(root: &Path) -> BTreeMap<String, Node> {
+    fn walk(dir: &Path, root: &Path, out: &mut BTreeMap<String, Node>) {
+        let rd = match std::fs::read_dir(dir) {
+            Ok(r) => r,
+            Err(_) => return,
+        };
+        for e in rd.flatten() {
+            let p = e.path();
+            let rel = p.strip_prefix(root).unwrap_or(&p).to_string_lossy().to_string();
+            match std::fs::symlink_metadata(&p) {
+                Ok(m) if m.file_type().is_symlink() => {
+                    out.insert(rel, Node::Link(std::fs::read_link(&p).unwrap_or_default()));
+                }
+                Ok(m) if m.is_dir() => {
+                    out.insert(rel, Node::Dir);
+                    walk(&p, root, out);
+                }
+                Ok(m) => {
+                    out.insert(rel, Node::File(std::fs::read(&p).unwrap_or_default(), m.modified().ok()));
+                }
+                Err(_) => {}
             }
         }
-        for i in 0..sc.cycles.len() {
-            let c = &sc.cycles[i];
-            if c.edit != Edit::None {
-                let mut s = sc.clone();
-                s.cycles[i].edit = Edit::None;
-                out.push(s);
+    }
+    let mut out = BTreeMap::new();
+    walk(root, root, &mut out);
+    out
+}
+
+fn tree_diff(a: &BTreeMap<String, Node>, b: &BTreeMap<String, Node>) -> String {
+    let mut v = Vec::new();
+    for (k, n) in b {
+        match a.get(k) {
+            None => v.push(format!("created {}", k)),
+            Some(m) if m != n => v.push(format!("modified {}", k)),
+            _ => {}
+        }
+    }
+    for k in a.keys() {
+        if !b.contains_key(k) {
+            v.push(format!("removed {}", k));
+        }
+    }
+    v.join(", ")
+}
+
+fn remove_any(p: &Path) {
+    match std::fs::symlink_metadata(p) {
+        Ok(m) if m.is_dir() && !m.file_type().is_symlink() => {
+            let _ = std::fs::remove_dir_all(p);
+        }
+        Ok(_) => {
+            let _ = std::fs::remove_file(p);
+        }
+        Err(_) => {}
+    }
+}
+
+fn set_real_env(v: &Option<String>) {
+    match v {
+        Some(s) => std::env::set_var("UPDATE_GOLDEN", s),
+        None => std::env::remove_var("UPDATE_GOLDEN"),
+    }
+}
+
+fn read_real(p: &Path) -> Option<Vec<u8>> {
+    match std::fs::symlink_metadata(p) {
+        Ok(m) if m.is_file() => std::fs::read(p).ok(),
+        _ => None,
+    }
+}
+
+fn real_leg(sc: &Sc, out: &mut RunOut) {
+    okane_golden::verif::set_world(None);
+    let root = super::c11::fresh_real_dir();
+    let dir = root.join("testdata");
+    let path = dir.join("golden.txt");
+    let mk = if sc.parent_missing { &root } else { &dir };
+    if std::fs::create_dir_all(mk).is_err() {
+        out.count("real.scratch-dir-unavailable");
+        return;
+    }
+    if sc.parent_missing {
+        out.count("fault.real-parent-directory-missing");
+    }
+    if let Some(b) = &sc.initial {
+        let _ = std::fs::write(&path, b);
+    }
+    for (ci, c) in sc.cycles.iter().enumerate() {
+        let cur = read_real(&path);
+        let got: String = if ci > 0 && c.got.len() % 2 == 0 {
+            cur.as_ref().map(|b| String::from_utf8_lossy(b).replace("\r\n", "\n")).unwrap_or_else(|| c.got.clone())
+        } else {
+            c.got.clone()
+        };
+        let sig = format!(
+            "real fs; env {:?}->{:?}; file {}; read {:?}; write {:?}; edit {}",
+            c.env_at_new,
+            c.env_at_assert,
+            if cur.is_some() {
+                "present"
+            } else if dir.is_dir() {
+                "absent"
+            } else {
+                "absent, and so is its directory"
+            },
+            c.read_fault,
+            std::mem::discriminant(&c.write_fault),
+            match c.edit {
+                Edit::None => "none",
+                Edit::Replace(_) => "replace",
+                Edit::Remove => "remove",
             }
-            if c.read_fault != ReadFault::None {
-                let mut s = sc.clone();
-                s.cycles[i].read_fault = ReadFault::None;
-                out.push(s);
+        );
+        // ---- new ----
+        let file_at_new = cur.clone();
+        let c = &if dir.is_dir() {
+            c.clone()
+        } else {
+            Cycle { read_fault: ReadFault::None, edit: Edit::None, ..c.clone() }
+        };
+        match c.read_fault {
+            ReadFault::None => {}
+            ReadFault::Eio => {
+                remove_any(&path);
+                let _ = std::fs::create_dir(&path);
+                out.count("fault.real-path-is-a-directory-at-read");
             }
-            if c.write_fault != WriteFault::None {
-                let mut s = sc.clone();
-                s.cycles[i].write_fault = WriteFault::None;
-                out.push(s);
-            }
-            if c.env_at_new != c.env_at_assert {
-                let mut s = sc.clone();
-                s.cycles[i].env_at_assert = c.env_at_new.clone();
-                out.push(s);
-            }
-            if c.got.chars().count() > 1 {
-                let n = c.got.chars().count();
-                let mut s = sc.clone();
-                s.cycles[i].got = c.got.chars().take(n / 2).collect();
-                out.push(s);
-                let mut s = sc.clone();
-                s.cycles[i].got = c.got.chars().skip(n / 2).collect();
-                out.push(s);
+            ReadFault::Denied => {
+                remove_any(&path);
+                let _ = std::os::unix::fs::symlink("golden.txt", &path);
+                out.count("fault.real-path-is-a-symlink-loop-at-read");
             }
         }
-        if let Some(b) = &sc.initial {
-            if b.len() > 1 {
-                let mut s = sc.clone();
-                s.initial = Some(b[..b.len() / 2].to_vec());
-                out.push(s);
+        set_real_env(&c.env_at_new);
+        let s0 = snapshot(&root);
+        let made = catch_unwind(AssertUnwindSafe(|| okane_golden::Golden::new(path.clone())));
+        let s1 = snapshot(&root);
+        let made = match made {
+            Ok(r) => r,
+            Err(_) => {
+                out.violate("C20/new-panicked", sig.clone(), "Golden::new panicked".to_string());
+                break;
+            }
+        };
+        if s0 != s1 && !update_on(&c.env_at_new) {
+            out.violate("C20/wrote-without-update", format!("during new; {}", sig), format!("Golden::new changed the directory tree: {}", tree_diff(&s0, &s1)));
+        }
+        let text_at_new: Option<Result<String, ()>> = file_at_new.as_ref().map(|b| String::from_utf8(b.clone()).map_err(|_| ()));
+        let want_new_ok: Option<bool> = if c.read_fault != ReadFault::None || matches!(text_at_new, Some(Err(()))) {
+            if update_on(&c.env_at_new) {
+                None
+            } else {
+                Some(false)
+            }
+        } else {
+            match &text_at_new {
+                None => Some(update_on(&c.env_at_new)),
+                _ => Some(true),
+            }
+        };
+        match (want_new_ok, made.is_ok()) {
+            (Some(false), true) => {
+                let rule = if file_at_new.is_none() && c.read_fault == ReadFault::None {
+                    "C20/missing-file-not-error"
+                } else {
+                    "C20/read-error-swallowed"
+                };
+                out.violate(rule, sig.clone(), format!("Golden::new returned Ok; file at new: {:?}", file_at_new.as_ref().map(|b| String::from_utf8_lossy(b).to_string())));
+            }
+            (Some(true), false) => out.violate(
+                "C20/new-failed",
+                sig.clone(),
+                format!("Golden::new failed although the file is readable or UPDATE_GOLDEN is set: {:?}", made.as_ref().err().map(|e| e.to_string())),
+            ),
+            _ => {}
+        }
+        // the read fault ends: the file is what it was (or whatever `new` left, when updating)
+        if c.read_fault != ReadFault::None {
+            remove_any(&path);
+            if let Some(b) = &file_at_new {
+                let _ = std::fs::write(&path, b);
             }
         }
-        out
+        let golden = match made {
+            Ok(g) => g,
+            Err(_) => continue,
+        };
+        let unreadable_at_new = c.read_fault != ReadFault::None || matches!(text_at_new, Some(Err(())));
+        // ---- another actor, the environment ----
+        let before_edit = read_real(&path);
+        match &c.edit {
+            Edit::None => {}
+            Edit::Replace(b) => {
+                let _ = std::fs::write(&path, b);
+            }
+            Edit::Remove => remove_any(&path),
+        }
+        let edited = read_real(&path) != before_edit;
+        let no_parent = !dir.is_dir();
+        let refuse = c.write_fault == WriteFault::Refused || no_parent;
+        if refuse && !no_parent {
+            remove_any(&path);
+            let _ = std::fs::create_dir(&path);
+            out.count("fault.real-path-is-a-directory-at-write");
+        }
+        set_real_env(&c.env_at_assert);
+        let flipped = update_on(&c.env_at_new) != update_on(&c.env_at_assert);
+        // ---- assert ----
+        let b0 = snapshot(&root);
+        let passed = catch_unwind(AssertUnwindSafe(|| golden.assert(&got))).is_ok();
+        let b1 = snapshot(&root);
+        let file_after = read_real(&path);
+        out.mix(crate::prng::fnv(format!("real{}{:?}", passed, file_after).as_bytes()));
+        if !update_on(&c.env_at_assert) {
+            if b0 != b1 {
+                out.violate(
+                    "C20/wrote-without-update",
+                    sig.clone(),
+                    format!("UPDATE_GOLDEN is {:?} at assert, yet the directory tree changed: {}", c.env_at_assert, tree_diff(&b0, &b1)),
+                );
+            }
+            if flipped || edited || refuse || unreadable_at_new {
+                out.count("dc.real: environment or file changed between new and assert");
+            } else {
+                let content = text_at_new.clone().and_then(|r| r.ok()).unwrap_or_default().replace("\r\n", "\n");
+                let equal = got == content;
+                if equal && !passed {
+                    out.violate("C20/fail-on-equal", sig.clone(), format!("got == content.replace(CRLF, LF) == {:?}, yet assert panicked", got));
+                }
+                if !equal && passed {
+                    out.violate("C20/pass-on-different", sig.clone(), format!("got {:?} differs from normalised content {:?}, yet assert returned", got, content));
+                }
+                out.count(if equal { "probe.real-compared-equal" } else { "probe.real-compared-different" });
+            }
+        } else if refuse {
+            // the update cannot go through as long as a directory sits at the path:
+            // either assert fails, or it made room and the file holds got
+            if passed && file_after.as_deref() != Some(got.as_bytes()) {
+                out.violate("C20/pass-after-refused-write", sig.clone(), "a directory sits at the golden path, the update cannot have succeeded, yet assert returned normally".to_string());
+            }
+            out.count("probe.real-failed-update");
+        } else {
+            if file_after.as_deref() != Some(got.as_bytes()) {
+                out.violate(
+                    "C20/file-ne-got-after-update",
+                    sig.clone(),
+                    format!("UPDATE_GOLDEN={:?}: after assert the file holds {:?}, got was {:?}", c.env_at_assert, file_after.as_ref().map(|b| String::from_utf8_lossy(b).to_string()), got),
+                );
+            }
+            if !passed {
+                out.violate("C20/fail-on-equal", format!("update mode; {}", sig), "assert panicked although the golden was to be updated to got".to_string());
+            }
+            out.count("probe.real-updated");
+        }
+        if refuse && !no_parent {
+            remove_any(&path);
+        }
     }
-
-    fn sample(&self, sc: &Sc) -> serde_json::Value {
-        serde_json::json!({
-            "matrix_cell": sc.matrix_cell,
-            "initial_file": sc.initial.as_ref().map(|b| String::from_utf8_lossy(b).to_string()),
-            "cycles": sc.cycles.iter().map(|c| serde_json::json!({
-                "UPDATE_GOLDEN_at_new": c.env_at_new,
-                "UPDATE_GOLDEN_at_assert": c.env_at_assert,
-                "read_fault": format!("{:?}", c.read_fault),
-                "write_fault": format!("{:?}", c.write_fault),
-                "edit": match &c.edit { Edit::None => "none".to_string(), Edit::Remove => "remove".to_string(), Edit::Replace(b) => format!("replace with {:?}", String::from_utf8_lossy(b)) },
-                "got": c.got,
-            })).collect::<Vec<_>>(),
-        })
-    }
-
-    fn rule(&self) -> &'static str {
-        "run index mod 192 selects one cell of the matrix UPDATE_GOLDEN in {unset, '', '1', '0'} x file {absent, present} x fault {none, read error (EIO / permission), write refused at open, write torn after k bytes} x environment flipped between new and assert {no, yes} x third-party {nothing, edit, remove} for the first new/assert cycle (every cell is visited equally often; coverage.schedules.distinct_matrix_cells must be 192); contents and `got` are seeded (empty, CRLF vs LF, lone CR, trailing newline, non-ASCII, invalid UTF-8, one character changed, unrelated); 0-2 further drawn cycles reuse the durable file written by earlier ones; the model is the statement: assert returns iff got == content.replace(CRLF, LF); zero write calls and an unchanged file whenever UPDATE_GOLDEN is unset or empty at the call; new on an absent file is an error unless updating; after a successful update the file holds exactly got; a failed update must panic; every run is non-trivial; distinct = structural hash of the tape"
-    }
-
-    fn assumptions(&self) -> Vec<&'static str> {
-        vec![
-            "DONT_CARE: what assert compares against when the file was edited, or UPDATE_GOLDEN switched between update and no-update, after new (the no-write half is still enforced)",
-            "the seam replaces std::fs::read_to_string, std::fs::write and std::env::var inside golden/src/lib.rs only; CRLF normalisation, NotFound handling, is_update_golden and write-then-compare run for real",
-        ]
-    }
+    std::env::remove_var("UPDATE_GOLDEN");
+    super::c11::cleanup_real(&root);
 }
